@@ -193,7 +193,7 @@ func (response *Response) Validate(ctx context.Context, opts ...ValidationOption
 		return errors.New("a short description of the response is required")
 	}
 	if vo := getValidationOptions(ctx); !vo.examplesValidationDisabled {
-		vo.examplesValidationAsReq, vo.examplesValidationAsRes = false, true
+		ctx = withExamplesValidatedAs(ctx, false)
 	}
 
 	if content := response.Content; content != nil {
